@@ -7,7 +7,7 @@
    ones for every re-declared port (constant, repeated symbol, compound over parameters and locals), i.e. that
    mismatch at the port <=> BartiqCompilationError, against the bottom-up denotation. *)
 From Coq Require Import List String QArith ZArith.
-From Bq Require Import Expr StdSem RepModel Routine Compare Compile CompareFacts.
+From Bq Require Import Expr StdSem RepModel Routine Compare Compile CompareFacts Preprocess PortVarFacts.
 Import ListNotations.
 Open Scope Q_scope.
 
@@ -47,3 +47,22 @@ Example C06_nonvacuous :
   statusE (eadd N (EZ 1)) N = CViolated /\
   statusE N (EZ 3) = CInconclusive.
 Proof. repeat split; vm_compute; reflexivity. Qed.
+
+(* no declaration is lost on the way to the comparison: after introduce_port_variables, for every input / through
+   port p of the routine -- a constant or a compound size reappears as a retained constraint `#p = size` (the
+   constant literally), a symbol seen at an earlier port reappears as a constraint between the two port variables,
+   a new symbol becomes a local variable defined by the port variable *)
+Theorem C06_every_declaration_becomes_a_constraint_or_a_definition : forall r r',
+  introduce_port_variables_node r = Ok r' ->
+  forall p, In p (rports r) -> p_dir p <> DOut ->
+    match p_size p with
+    | ESym s =>
+        s = hash_name (p_name p)
+        \/ (exists v, lookup s (rlocals r') = Some v)
+        \/ (exists v, In (mk_constraint (ESym (hash_name (p_name p))) v) (rconstraints r'))
+    | sz =>
+        exists rhs, In (mk_constraint (ESym (hash_name (p_name p))) rhs) (rconstraints r')
+                    /\ (is_constant_int sz = true -> rhs = sz)
+    end.
+Proof. exact ipv_declarations_accounted. Qed.
+Print Assumptions C06_every_declaration_becomes_a_constraint_or_a_definition.
